@@ -168,7 +168,7 @@ impl LiveConn {
         let listener = std::net::TcpListener::bind("127.0.0.1:0").ok()?;
         let addr = listener.local_addr().ok()?;
         let sock = std::net::TcpStream::connect(addr).ok()?;
-        sock.set_read_timeout(Some(std::time::Duration::from_secs(5))).ok()?;
+        sock.set_read_timeout(Some(std::time::Duration::from_secs(30))).ok()?;
         sock.set_nodelay(true).ok();
         let (srv, _) = listener.accept().ok()?;
         srv.set_nonblocking(true).ok()?;
